@@ -230,10 +230,13 @@ func newEvWorld(algs []string, cc Conc, d *domains) *evWorld {
 		}
 		w.enc[id] = b
 	}
-	// the strongest adversary: an honest signature for every (key, algorithm, claims-set)
+	// the strongest adversary: an honest signature for every (key, algorithm, claims-set), and for bytes that are
+	// no claims map at all (signed by the same keys for some other purpose)
+	w.enc["garbage"] = garbagePayload
+	defer delete(w.enc, "garbage")
 	for _, a := range algs {
 		for _, k := range []string{"k1", "k2"} {
-			for id := range w.claims {
+			for id := range w.enc {
 				rs, err := cose.NewSigner(algOf[a], w.kr[a][k].priv)
 				if err != nil {
 					fatal("NewSigner: %v", err)
@@ -252,6 +255,8 @@ func newEvWorld(algs []string, cc Conc, d *domains) *evWorld {
 	}
 	return w
 }
+
+var garbagePayload = []byte{0x01, 0x02, 0x03}
 
 // ---------- abstraction ----------
 
